@@ -226,6 +226,17 @@ class Repo:
                      and (mod is None or k.startswith(mod + '.'))]
             if len(moved) == 1:
                 return self.funcs[moved[0]]
+            # ... or it was lifted to a module-level function (unknown to the checker) that the parent calls
+            if parent in self.funcs:
+                pfi = self.funcs[parent]
+                lifted = set()
+                for n in ast.walk(pfi.node):
+                    if isinstance(n, ast.Name) and isinstance(n.ctx, ast.Load) and n.id not in known_names():
+                        q2 = pfi.module.name + '.' + n.id
+                        if q2 in self.funcs and self.funcs[q2].cls is None and self.funcs[q2].parent is None:
+                            lifted.add(q2)
+                if len(lifted) == 1:
+                    return self.funcs[lifted.pop()]
         raise AnalysisError(f'anchor function not found: {qualname}')
 
     def has_func(self, qualname):
